@@ -207,7 +207,7 @@ def rule_r4(ctx):
                     ctx.r.violation(rid, "app-exc-escapes::%s::%s" % (exc, t.func.qual), "%s raised at %s escapes through %s" % (label, what, t.func.qual), t.func.loc(), {"chain": t.chain})
                     continue
                 h = t.hnode.ast
-                if h is dh:
+                if getattr(h, "_orig", h) is getattr(dh, "_orig", dh):
                     ctx.r.ok(rid, "%s at %s -> the 500-or-close handler" % (exc, what), t.func.loc(h))
                     continue
                 beh = getattr(t, "behaviour", "swallow")
@@ -271,7 +271,17 @@ def rule_r6(ctx):
     else:
         ctx.r.violation(rid, key_of(f, None, "no-close-after-output"), "an application failure after output began does not close the connection", f.loc(dh))
     # InternalServerError carries the body
-    ise = [c for c in ast.walk(dh) if isinstance(c, ast.Call) and dotted(c.func) == "InternalServerError"]
+    cg = get_callgraph(p)
+    scope = [dh]
+    seen = set()
+    for c in ast.walk(dh):
+        # private helpers of the channel called from the handler belong to it
+        if isinstance(c, ast.Call):
+            for callee in cg.callees(c):
+                if callee.qual.startswith("channel.") and callee.qual not in seen:
+                    seen.add(callee.qual)
+                    scope.append(callee.node)
+    ise = [c for sc in scope for c in ast.walk(sc) if isinstance(c, ast.Call) and dotted(c.func) == "InternalServerError"]
     if ise:
         ctx.r.ok(rid, "the synthetic request carries InternalServerError", f.loc(ise[0]))
     else:
